@@ -355,6 +355,117 @@ mod spec_defaults {
     }
 }
 
+/// C05 / C03 / C20: "every spec-valid encoding of a value -- whichever width variant the peer chose -- decodes to that same value", for the TYPED
+/// protocol items (derive(DeserializeComposite): DescribedAccess, consume_list_header, the field visitors), and "whatever follows an encoded value
+/// is left untouched". Each sample is encoded by the crate, its outer described list is re-written in EVERY valid width (list8 <-> list32; list0
+/// stays), a marker value is appended, and the bytes are decoded from a slice and from a stream: the value must be the sample, the marker must follow.
+mod composite_variants {
+    use fe2o3_amqp::types::{definitions::{self, Role}, messaging::{Accepted, Released, Rejected, Modified, Received, Header, Properties, ApplicationProperties, Data, AmqpValue, DeliveryState, Outcome, Source, Target},
+        performatives::{Begin, Close, Detach, Disposition, End, Flow, Open, Transfer}};
+    use serde_amqp::{to_vec, primitives::{Binary, Symbol}, Value, serde::{de::DeserializeOwned, Deserialize, Serialize}};
+    /// (descriptor length, list constructor offset) of `00 <descriptor> <list>`; None if the bytes are not a described list
+    fn split(b: &[u8]) -> Option<usize> {
+        if b.len() < 3 || b[0] != 0x00 { return None; }
+        let d = match b[1] { 0x53 => 2, 0x80 => 9, 0x44 => 1, 0xa3 => 2 + b[2] as usize, _ => return None };
+        Some(1 + d)
+    }
+    fn variants(b: &[u8]) -> Vec<(String, Vec<u8>)> {
+        let mut out = vec![("as written".to_string(), b.to_vec())];
+        let at = match split(b) { Some(a) if a < b.len() => a, _ => return out };
+        let head = &b[..at];
+        match b[at] {
+            0xc0 if b.len() >= at + 3 => {
+                let (size, count) = (b[at + 1] as u32, b[at + 2] as u32);
+                let body = &b[at + 3..];
+                let mut v = head.to_vec(); v.push(0xd0); v.extend_from_slice(&(size + 3).to_be_bytes()); v.extend_from_slice(&count.to_be_bytes()); v.extend_from_slice(body);
+                out.push(("outer list8 re-written as list32".to_string(), v));
+            }
+            0xd0 if b.len() >= at + 9 => {
+                let size = u32::from_be_bytes([b[at + 1], b[at + 2], b[at + 3], b[at + 4]]);
+                let count = u32::from_be_bytes([b[at + 5], b[at + 6], b[at + 7], b[at + 8]]);
+                let body = &b[at + 9..];
+                if size - 4 + 1 <= 255 && count <= 255 {
+                    let mut v = head.to_vec(); v.push(0xc0); v.push((size - 4 + 1) as u8); v.push(count as u8); v.extend_from_slice(body);
+                    out.push(("outer list32 re-written as list8".to_string(), v));
+                }
+            }
+            0x45 => {
+                let mut v = head.to_vec(); v.extend_from_slice(&[0xc0, 0x01, 0x00]); out.push(("outer list0 re-written as an empty list8".to_string(), v));
+                let mut v = head.to_vec(); v.extend_from_slice(&[0xd0, 0, 0, 0, 4, 0, 0, 0, 0]); out.push(("outer list0 re-written as an empty list32".to_string(), v));
+            }
+            _ => {}
+        }
+        out
+    }
+    fn hx(b: &[u8]) -> String { let s: String = b.iter().take(40).map(|x| format!("{:02x}", x)).collect::<Vec<_>>().join(" "); if b.len() > 40 { format!("{} .. ({} octets)", s, b.len()) } else { s } }
+    fn one<T: Serialize + DeserializeOwned + PartialEq + std::fmt::Debug>(v: &T, tried: &mut u64) -> Option<String> {
+        let b = match to_vec(v) { Ok(b) => b, Err(e) => return Some(format!("to_vec({:.100?}) fails: {:?}", v, e)) };
+        for (how, mut enc) in variants(&b) {
+            *tried += 1;
+            let n = enc.len();
+            enc.extend_from_slice(&[0x54, 0x07, 0xa1, 0x02, b'o', b'k']);       // what follows the value: int 7, then the string "ok"
+            // from a slice
+            let r = std::panic::catch_unwind(|| {
+                let mut de = serde_amqp::de::Deserializer::new(serde_amqp::read::SliceReader::new(&enc));
+                let a = T::deserialize(&mut de).map_err(|e| format!("{:?}", e))?;
+                let m = i32::deserialize(&mut de).map_err(|e| format!("the value that FOLLOWS it does not decode: {:?}", e))?;
+                let s = String::deserialize(&mut de).map_err(|e| format!("the second value that follows it does not decode: {:?}", e))?;
+                Ok::<(T, i32, String), String>((a, m, s))
+            });
+            match r {
+                Err(_) => return Some(format!("{} {:.100?}, {} [{}]: decoding from a slice PANICS", std::any::type_name::<T>(), v, how, hx(&enc[..n]))),
+                Ok(Err(e)) => return Some(format!("{} {:.100?}, {} [{}] followed by `54 07 a1 02 6f 6b`: from a slice: {}", std::any::type_name::<T>(), v, how, hx(&enc[..n]), e)),
+                Ok(Ok((a, m, s))) => if a != *v || m != 7 || s != "ok" { return Some(format!("{} {:.100?}, {} [{}] followed by int 7, \"ok\": from a slice decoded {:.100?}, then {} and {:?}", std::any::type_name::<T>(), v, how, hx(&enc[..n]), a, m, s)); }
+            }
+            // from a stream
+            let r = std::panic::catch_unwind(|| {
+                let mut de = serde_amqp::de::Deserializer::new(serde_amqp::read::IoReader::new(std::io::Cursor::new(enc.clone())));
+                let a = T::deserialize(&mut de).map_err(|e| format!("{:?}", e))?;
+                let m = i32::deserialize(&mut de).map_err(|e| format!("the value that FOLLOWS it does not decode: {:?}", e))?;
+                let s = String::deserialize(&mut de).map_err(|e| format!("the second value that follows it does not decode: {:?}", e))?;
+                Ok::<(T, i32, String), String>((a, m, s))
+            });
+            match r {
+                Err(_) => return Some(format!("{} {:.100?}, {} [{}]: decoding from a stream PANICS", std::any::type_name::<T>(), v, how, hx(&enc[..n]))),
+                Ok(Err(e)) => return Some(format!("{} {:.100?}, {} [{}] followed by `54 07 a1 02 6f 6b`: from a stream: {}", std::any::type_name::<T>(), v, how, hx(&enc[..n]), e)),
+                Ok(Ok((a, m, s))) => if a != *v || m != 7 || s != "ok" { return Some(format!("{} {:.100?}, {} [{}] followed by int 7, \"ok\": from a stream decoded {:.100?}, then {} and {:?}", std::any::type_name::<T>(), v, how, hx(&enc[..n]), a, m, s)); }
+            }
+        }
+        None
+    }
+    pub fn all(tried: &mut u64) -> Option<String> {
+        std::panic::set_hook(Box::new(|_| {}));
+        macro_rules! t { ($e:expr) => { if let Some(m) = one(&$e, tried) { return Some(m); } } }
+        let err = |n: usize| definitions::Error::new(definitions::AmqpError::InternalError, Some("d".repeat(n)), None);
+        t!(Accepted {}); t!(Released {}); t!(Rejected { error: None }); t!(Rejected { error: Some(err(3)) });
+        t!(Modified { delivery_failed: Some(true), undeliverable_here: None, message_annotations: None });
+        t!(Received { section_number: 1, section_offset: 2 }); t!(Received { section_number: 0, section_offset: 0 });
+        t!(DeliveryState::Accepted(Accepted {})); t!(DeliveryState::Rejected(Rejected { error: Some(err(300)) })); t!(Outcome::Released(Released {}));
+        t!(Open { container_id: "c".into(), hostname: Some("h".into()), max_frame_size: 512.into(), channel_max: 9.into(), idle_time_out: Some(1000), outgoing_locales: None, incoming_locales: None, offered_capabilities: None, desired_capabilities: None, properties: None });
+        t!(Open { container_id: "c".repeat(300), hostname: None, max_frame_size: Default::default(), channel_max: Default::default(), idle_time_out: None, outgoing_locales: None, incoming_locales: None, offered_capabilities: None, desired_capabilities: None, properties: None });
+        t!(Begin { remote_channel: Some(1), next_outgoing_id: 2, incoming_window: 3, outgoing_window: 4, handle_max: Default::default(), offered_capabilities: None, desired_capabilities: None, properties: None });
+        t!(Flow { next_incoming_id: Some(1), incoming_window: 2, next_outgoing_id: 3, outgoing_window: 4, handle: Some(5u32.into()), delivery_count: Some(6), link_credit: Some(7), available: None, drain: true, echo: false, properties: None });
+        t!(Transfer { handle: 1u32.into(), delivery_id: Some(2), delivery_tag: Some(vec![1u8, 2, 3].into()), message_format: Some(0), settled: Some(false), more: true, rcv_settle_mode: None, state: None, resume: false, aborted: false, batchable: false });
+        t!(Transfer { handle: 1u32.into(), delivery_id: Some(2), delivery_tag: Some(vec![9u8; 32].into()), message_format: Some(0), settled: None, more: false, rcv_settle_mode: None, state: Some(DeliveryState::Rejected(Rejected { error: Some(err(300)) })), resume: false, aborted: false, batchable: true });
+        t!(Disposition { role: Role::Receiver, first: 0, last: Some(9), settled: true, state: Some(DeliveryState::Accepted(Accepted {})), batchable: false });
+        t!(Detach { handle: 3u32.into(), closed: true, error: Some(err(300)) }); t!(Detach { handle: 3u32.into(), closed: false, error: None });
+        t!(End { error: None }); t!(End { error: Some(err(10)) }); t!(Close { error: Some(err(260)) }); t!(Close { error: None });
+        t!(Header::default()); t!(Header { durable: true, ..Default::default() });
+        t!(Properties::default());
+        // described lists whose body crosses the list8 / list32 boundary, with trailing fields elided
+        for n in [0usize, 1, 200, 240, 245, 246, 247, 248, 249, 250, 251, 252, 253, 254, 255, 256, 300] {
+            t!(Properties { subject: Some("s".repeat(n)), ..Default::default() });
+            t!(Properties { user_id: Some(Binary::from(vec![7u8; n])), reply_to_group_id: Some("g".into()), ..Default::default() });
+            t!(Rejected { error: Some(err(n)) });
+            t!(Source { address: Some("a".repeat(n)), ..Default::default() });
+            t!(Target { address: Some("a".repeat(n)), ..Default::default() });
+        }
+        t!(Data(Binary::from(vec![1u8; 3]))); t!(AmqpValue(Value::String("s".repeat(300)))); t!(AmqpValue(Value::Symbol(Symbol::from("x"))));
+        t!(ApplicationProperties::default());
+        None
+    }
+}
+
 fn main() {
     let args: Vec<String> = std::env::args().collect();
     if args.len() < 2 { eprintln!("usage: verif-falsify <family> [seed]"); std::process::exit(2); }
@@ -399,6 +510,7 @@ fn main() {
         "C03.array-of-zero-width" => { found = value_rt::all(2, &mut tried); }
         "C20.size-composites" => { found = size_composites::all(&mut tried); }
         "C05.spec-defaults" => { found = spec_defaults::all(&mut tried); }
+        "C05.composite-variants" => { found = composite_variants::all(&mut tried); }
         "C20.value-tree-plain" => { found = value_tree::all(0, &mut tried); }
         "C20.value-tree-described" => { found = value_tree::all(1, &mut tried); }
         "C20.value-tree-untyped" => { found = value_tree::all(2, &mut tried); }
